@@ -26,6 +26,16 @@ def gen(rng, n, tier):
             hd["bins"] = [[[Fr(float(a)), Fr(float(b))] for a, b in fb.bins]]; hd["kinds"] = ["fixed"]; hd["incl"] = [False]
             hd["fixed_args"] = [[Fr(w), nb, Fr(start)]]
             h = [[k, v] for k, v in hd.items()]
+        heavy = False
+        if rng.random() < 0.06:
+            # contents of widely different magnitude: the first two bins hold multiples of 2^60, the others small numbers; merging by 1 or 2
+            # keeps every run's sum exactly representable, while sums across runs (prefix sums) are not
+            hd = sx.rec(C.gen_hist(rng, ndim=1, maxbins=7, minbins=4, gapped=0.0, weights="float"))
+            nb = len(hd["bins"][0])
+            hd["freq"] = [Fr(2 ** 60) * rng.randint(1, 3), Fr(2 ** 60) * rng.randint(1, 3)] + [Fr(rng.randint(1, 40), 8) for _ in range(nb - 2)]
+            hd["err2"] = [Fr(2 ** 100) * rng.randint(1, 3), Fr(2 ** 100) * rng.randint(1, 3)] + [Fr(rng.randint(1, 40), 8) for _ in range(nb - 2)]
+            hd["missed"] = [0, 0, 0]
+            h = [[k, v] for k, v in hd.items()]; heavy = True
         setter = "F"
         if sx.rec(h)["dtype"] == "int64" and rng.random() < 0.3:      # fractional squared errors put on integer contents through the errors2 setter
             hd = sx.rec(h); hd["err2"] = [Fr(rng.randint(0, 40), 8) for _ in hd["err2"]]; setter = "T"
@@ -35,8 +45,8 @@ def gen(rng, n, tier):
         axes = list(range(ndim)) if axis == "none" else [axis]
         nmax = max(len(b) for b in d["bins"])
         integral = "T"
-        if rng.random() < 0.65:
-            a = rng.randint(1, nmax + 3)
+        if heavy or rng.random() < 0.65:
+            a = rng.randint(1, nmax + 3) if not heavy else rng.choice([1, 2])
             if rng.random() < 0.06: integral = "F"
             op = ["amount", a]; bucket = "amount"
         else:
@@ -46,7 +56,7 @@ def gen(rng, n, tier):
             op = ["minfreq", thr]; bucket = "minfreq"
         by_name = "T" if (axis != "none" and rng.random() < 0.4) else "F"
         yield [["bucket", bucket + ("-%dd" % ndim)], ["hist", h], ["op", op], ["axes", axes], ["integral", integral],
-               ["err2_setter", setter], ["inplace", rng.choice(["T", "F"])], ["axis_none", "T" if axis == "none" else "F"], ["by_name", by_name]]
+               ["err2_setter", setter], ["heavy", "T" if heavy else "F"], ["inplace", rng.choice(["T", "F"])], ["axis_none", "T" if axis == "none" else "F"], ["by_name", by_name]]
 
 def impl(case):
     d = sx.rec(case); hd = sx.rec(d["hist"])
@@ -78,7 +88,10 @@ def impl(case):
         untouched = (r is h)
     else:
         untouched = (r is not h) and C.same_snap(before, after)
-    return ["ok"] + C.snap(r) + [untouched]
+    sn = C.snap(r)
+    if d.get("heavy") == "T":      # 2^60 beside 1: the total is not a float; read it as the exact sum of the contents shown
+        sn[4] = sum((Fr(float(x)) for x in sn[1]), Fr(0))
+    return ["ok"] + sn + [untouched]
 
 def nontrivial(case, obs):
     d = sx.rec(case)
